@@ -10,10 +10,16 @@ WITNESS_PROPS = {'C06': ['UninitializedIsUnsafe', 'RavelIsUnsafe', 'Avx2U8OnlyFo
                  'C19': ['UninitializedIsUnsafe', 'RavelIsUnsafe', 'RowIsPrivate']}
 
 
+# properties with backend-specific rules that are re-run on the aarch64 build, where the Arm NEON arm is compiled (rules/neon.py)
+NEON_PROPS = {'C01', 'C02', 'C03', 'C05', 'C06', 'C08'}
+
+
 def configs_for(prop):
     c = ['default', 'nooverflow']
     if prop in CORE_ONLY:
         c.append('nodefault')
+    if prop in NEON_PROPS:
+        c.append('aarch64')
     return c
 
 
